@@ -111,10 +111,126 @@ def l5(rep):
     rep.floor("float decompositions", n, 4)
 
 
+def _is_var(n, name):
+    s_ = strip(n)
+    return s_ is not None and s_["k"] == "DeclRefExpr" and s_["n"] == name
+
+
+def _eq_const(cond, var):
+    """`var == K` (either order) -> K, else None"""
+    c = strip(cond)
+    if c is None or c["k"] != "BinaryOperator" or c["op"] != "==":
+        return None
+    a, b = c["c"]
+    if _is_var(a, var) and const_value(b) is not None:
+        return const_value(b)
+    if _is_var(b, var) and const_value(a) is not None:
+        return const_value(a)
+    return None
+
+
+def _conj(cond):
+    c = strip(cond)
+    if c is not None and c["k"] == "BinaryOperator" and c["op"] == "&&":
+        return _conj(c["c"][0]) + _conj(c["c"][1])
+    return [c]
+
+
+def sentinels(rep, rule="L6"):
+    """The portable float form has two reserved exponents.  The writer x?fFrNative stores a NaN or infinity under X?F_ExponNAN
+    with the native fraction kept, and a zero under X?F_ExponMin with an empty fraction.  The reader x?fToNative must recognise
+    exactly those two encodings: a first test `expon == <the NaN sentinel>` whose branch assembles the native value without
+    overwriting the fraction (except for formats without NaNs), and a test `expon == <the zero sentinel> && !hasFrac`.  A range
+    test instead of the equality misclassifies ordinary values (a subnormal power of two has an empty fraction too); a missing
+    NaN case falls into the overflow case, which clears the fraction: every NaN is read back as an infinity."""
+    f = common.extract("xfloat.c", all_trees=True)
+    n = 0
+    for fam, nat in (("xsf", "sf"), ("xdf", "df")):
+        wr, rd = f.func(fam + "FrNative"), f.func(fam + "ToNative")
+        # --- the writer's sentinels
+        nan_s = zero_s = None
+        for i in walk(wr["body"]):
+            if i["k"] != "IfStmt":
+                continue
+            asm = [c for c in calls(i["c"][1], fam + "Assemble")]
+            if not asm:
+                continue
+            k = const_value(asm[0]["c"][3]) if len(asm[0]["c"]) > 3 else None
+            conj = _conj(i["c"][0])
+            tests_expon = [t for t in conj if t is not None and _eq_const(t, "expon") is not None]
+            nofrac = any(t is not None and t["k"] == "UnaryOperator" and t["op"] == "!" and _is_var(t["c"][0], "hasFrac") for t in conj)
+            hasfrac = any(_is_var(t, "hasFrac") for t in conj)
+            if k is None or not tests_expon or hasfrac:
+                continue
+            if nofrac and zero_s is None:
+                zero_s = k
+            elif not nofrac and nan_s is None:
+                nan_s = k
+        if nan_s is None or zero_s is None:
+            raise AnalysisBroken("%sFrNative: the NaN and zero cases (if (expon == ...) %sAssemble(.., CONSTANT, ..)) were not recognised"
+                                 % (fam, fam))
+        # --- the reader
+        ifs = [i for i in walk(rd["body"]) if i["k"] == "IfStmt" and any(y["k"] == "DeclRefExpr" and y["n"] == "expon" for y in walk(i["c"][0]))]
+        where = "xfloat.c:%d (%sToNative)" % (rd["l"], fam)
+        n += 2
+        # NaN/Inf: the first test on expon
+        key = "reader-recognises-sentinel:%s:nan" % fam
+        first = ifs[0] if ifs else None
+        if first is None or _eq_const(first["c"][0], "expon") != nan_s or not calls(first["c"][1], nat + "Assemble"):
+            rep.violation(rule, key, where,
+                          "%sFrNative stores NaNs and infinities under the reserved exponent %d with their fraction; %sToNative's "
+                          "first test on the exponent is not `expon == %d` with a branch that assembles the native value: a stored "
+                          "NaN is taken for an overflowing number by the next case, which clears the fraction, and comes back as "
+                          "an infinity" % (fam, nan_s, fam, nan_s))
+        else:
+            # the fraction is kept: stores into pb[] only under a test of the no-NaNs flag
+            par = common.parents(first["c"][1])
+            bad = None
+            for x in walk(first["c"][1]):
+                if x["k"] == "BinaryOperator" and x["op"] == "=":
+                    l = strip(x["c"][0])
+                    if l is not None and l["k"] == "ArraySubscriptExpr" and _is_var(l["c"][0], "pb"):
+                        cur, guarded = x, False
+                        while cur["id"] in par:
+                            cur = par[cur["id"]]
+                            if cur["k"] == "IfStmt" and any(y["k"] == "DeclRefExpr" and "nan" in y["n"].lower() for y in walk(cur["c"][0])):
+                                guarded = True
+                        if not guarded:
+                            bad = x
+            if bad is not None:
+                rep.violation(rule, key, "xfloat.c:%d (%sToNative)" % (bad["l"], fam),
+                              "the NaN/infinity case overwrites the fraction unconditionally: a NaN is read back as an infinity")
+            else:
+                rep.ok(rule, key, sample={"sentinel": nan_s})
+        # zero
+        key = "reader-recognises-sentinel:%s:zero" % fam
+        zs = []
+        for i in ifs:
+            conj = _conj(i["c"][0])
+            if any(t is not None and t["k"] == "UnaryOperator" and t["op"] == "!" and _is_var(t["c"][0], "hasFrac") for t in conj) and \
+                    calls(i["c"][1], nat + "Assemble") and not any(y["k"] == "CallExpr" and y.get("callee") not in (nat + "Assemble", "fprintf", "afprintf")
+                                                                    for y in walk(i["c"][1])):
+                zs.append((i, conj))
+        if len(zs) != 1:
+            raise AnalysisBroken("%sToNative: expected one `... && !hasFrac` case that assembles a zero, found %d" % (fam, len(zs)))
+        i, conj = zs[0]
+        others = [t for t in conj if not (t is not None and t["k"] == "UnaryOperator" and t["op"] == "!")]
+        if len(others) == 1 and _eq_const(others[0], "expon") == zero_s:
+            rep.ok(rule, key, sample={"sentinel": zero_s})
+        else:
+            rep.violation(rule, key, "xfloat.c:%d (%sToNative)" % (i["l"], fam),
+                          "%sFrNative stores a zero as (exponent %d, empty fraction); %sToNative's zero case tests `%s` instead of "
+                          "`expon == %d`: other values with an empty fraction (the leading 1 is implicit, so every power of two, in "
+                          "particular the subnormal ones) are read back as zero"
+                          % (fam, zero_s, fam, " && ".join(common.render(t) for t in others if t is not None)[:80], zero_s))
+    rep.floor("reserved exponents of the portable float form", n, 4)
+
+
 def run(tier, only=None):
     rep = common.Report("C19", tier, EXPLANATION)
     # ---- L5 and L4 first: they need nothing from C04 ----
     l5(rep)
+    sentinels(rep, "L6")
     deferred = None
     try:
         l4(rep)
